@@ -11,7 +11,7 @@ from tools import execdriver
 
 UNIT = u = Unit('switch_exec', ['C11'], 'bounded: generated switch programs executed, the arm that ran and its payload compared with the value')
 u.expected = ['compile_expr_with_args']
-u.trusted += ['BOUNDED stand-in (not a proof): one enum of 6 variants (payloads void, u8, u64, a 3-byte struct, str, i32; discriminants auto, auto, 7, auto, 200, auto) and a distinct wrapper of it, ?u32, str!u32; all-arms switches (qualified, shorthand) and every arm subset of size <= 2 with a default arm; core.println and the host linker are trusted']
+u.trusted += ['BOUNDED stand-in (not a proof): one enum of 6 variants (payloads void, u8, u64, a 3-byte struct, str, i32; discriminants auto, auto, 7, auto, 200, auto) and a distinct wrapper of it, ?u32, ?^u32 (both arm orders), str!u32; all-arms switches (qualified, shorthand) and every arm subset of size <= 2 with a default arm; core.println and the host linker are trusted']
 
 VARIANTS = [('A', None, 'E6.A.(())', None), ('B', 'u8', 'E6.B.(201)', '201'), ('C', 'u64', 'E6.C.(18446744073709551615)', '18446744073709551615'),
             ('D', 'S3', 'E6.D.{ a = 9, b = 513 }', '9 513'), ('E', 'str', 'E6.E.("hello")', 'hello'), ('F', 'i32', 'E6.F.(-5)', '-5')]
@@ -75,6 +75,14 @@ def gen():
     src.append('opt_def2 :: (v: ?u32) { switch x in v { nil => { core.println("arm nil"); }, _ => { core.println("default"); }, } }')
     src.append('err_all :: (v: str!u32) { switch x in v { u32 => { core.println("arm u32 ", x); }, str => { core.println("arm str ", x); }, } }')
     src.append('err_def :: (v: str!u32) { switch x in v { str => { core.println("arm str ", x); }, _ => { core.println("default"); }, } }')
+    # nullable pointers: no tag byte, nil is the null pointer; both orders of the two arms
+    src.append('ptr_pn :: (v: ?^u32) { switch x in v { ^u32 => { core.println("arm ptr ", x^); }, nil => { core.println("arm nil"); }, } }')
+    src.append('ptr_np :: (v: ?^u32) { switch x in v { nil => { core.println("arm nil"); }, ^u32 => { core.println("arm ptr ", x^); }, } }')
+    src.append('ptr_call :: () { t : u32 = 4242; ptr_pn(^t); ptr_pn(nil); ptr_np(^t); ptr_np(nil); }')
+    main.append('    core.println("# nullable pointer");')
+    main.append('    ptr_call();')
+    exp.append('# nullable pointer')
+    exp.extend(['arm ptr 4242', 'arm nil', 'arm ptr 4242', 'arm nil'])
     for call, out in [('opt_all(4000000000)', 'arm u32 4000000000'), ('opt_all(nil)', 'arm nil'), ('opt_def(7)', 'arm u32 7'), ('opt_def(nil)', 'default'),
                       ('opt_def2(7)', 'default'), ('opt_def2(nil)', 'arm nil'), ('err_all(77)', 'arm u32 77'), ('err_all("bad")', 'arm str bad'),
                       ('err_def(77)', 'default'), ('err_def("bad")', 'arm str bad')]:
@@ -90,7 +98,7 @@ def gen():
 def runner(unit, prop, repo, scratch, tier):
     return execdriver.run_cases(unit, prop, repo, scratch, tier, [gen()], 'compile_expr_with_args',
                                 'when a switch runs, exactly the arm of the value\'s current variant executes with the switch argument bound to that variant\'s payload, or the default arm when the variant has no arm',
-                                '6-variant enum with custom discriminants and its distinct wrapper: all-arms switches (2 styles) and all arm subsets of size <= 2 with a default, on every variant; ?u32 and str!u32 with and without default')
+                                '6-variant enum with custom discriminants and its distinct wrapper: all-arms switches (2 styles) and all arm subsets of size <= 2 with a default, on every variant; ?u32 and str!u32 with and without default, ?^u32 with both arm orders')
 
 
 u.runner = runner
